@@ -630,7 +630,8 @@ def check_C16(tier, seed, t0, only=None):
 C20_RULE = ('rapidcheck-generated programs: container type (9: vector, SmallVector inline/heap, FixedCapacityVector, FlatSet x2, SmallSet inline/large over '
             'std::set and FlatSet) x state x 2..8 reader threads each running a generated list of const operations (size, iteration, [], at, find/'
             'contains/count/bounds, ==, <, copy construction) for 6 rounds after a common start flag with generated spin offsets x 0..2 writer threads '
-            'mutating distinct container objects; built with -fsanitize=thread; oracle: no ThreadSanitizer report and every reader result equals the '
+            'each owning two container objects nobody else touches and running push_back / emplace and insert in the middle / erase / assign / swap / resize / '
+            'failing at() / comparisons (sets: insert, emplace, hinted insert, erase, swap, comparisons) on them; built with -fsanitize=thread; oracle: no ThreadSanitizer report and every reader result equals the '
             'precomputed single-threaded result; non-trivial = at least two readers execute a common operation kind on the shared container; '
             'distinct = distinct (container, state, per-thread programs)')
 
